@@ -157,6 +157,7 @@ def generate(seed, tier="quick"):
         f["header"].setdefault("pre", []).extend(["def external(name):  # the project's own helper", "    return 'data/' + name", "",
                                                   f"CONFIG = external({urng.choice(['settings', 'data/cfg.json', 'e1.json', 'x*y'])!r})"])
         kinds.append("own-function-named-external")
+    leftover = driver == "plugin" and sub(seed, "leftover").random() < 0.12  # see execute
     if sub(seed, "bom").random() < 0.06:
         prog["files"][0]["header"]["bom"] = True  # the file starts with a UTF-8 byte order mark
         kinds.append("byte-order-mark")
@@ -165,7 +166,7 @@ def generate(seed, tier="quick"):
     if driver == "plugin":
         start = sub(seed, "startdir").choice([None, None, None, "from_parent", "from_sibling"])
     return {"program": prog, "approved": approved, "driver": driver, "fmt": draw_fmt(sub(seed, "fmt")), "kinds": kinds, "start": start,
-            "short_report": driver == "plugin" and sub(seed, "short-report").random() < 0.2}
+            "short_report": driver == "plugin" and sub(seed, "short-report").random() < 0.2, "leftover": leftover}
 
 
 exc_signature = sim.exc_signature
@@ -221,6 +222,13 @@ def execute(case, ctx):
     files, orders = P.render(prog, drivers.simlib_text())
     if driver == "plugin":
         files["pyproject.toml"] = sim.pyproject_for(fmt)
+    if case.get("leftover") and driver == "plugin":
+        # durable state left behind by an earlier session of this directory that was killed while it rewrote the files (power loss, OOM killer):
+        # the temporary files of the atomic replace are still there, next to the intact test files
+        for f in prog["files"]:
+            files["." + f["name"] + ".inline-snapshot.tmp"] = files[f["name"]][: max(1, len(files[f["name"]]) // 2)]
+        kinds_extra = "leftover-temp-files-of-a-killed-session"
+        ctx.count("probe_leftover_temp_files_of_a_killed_session")
     flags = ",".join((["report"] if driver == "plugin" else []) + sorted(approved)) or None
     if driver == "plugin" and case.get("short_report"):
         flags = "short-report"
